@@ -872,4 +872,87 @@ MUTANTS = [
       "        InferredGoal::new(G::dynamic(Rc::new(PlusFd { u, v, w })))",
       "        InferredGoal::new(G::dynamic(Rc::new(PlusFd { w, v, u })))",
       silent=True),
+    # ---- round 4: value-level slips (one operand / seed / default / type changed, shape kept) -------
+    M("c02-run-rechecks-each-pair-alone", ["C02", "C04"], "src/relation/diseq.rs",
+      "                Ok(new_state) => test_state = new_state,",
+      "                Ok(_) => test_state = state.clone(),",
+      {"C02": "threads-unified-state", "C04": "threads-unified-state"}),
+    M("c02-subsumes-state-not-threaded", ["C02"], "src/relation/diseq.rs",
+      "                        Ok(s) => state = s,",
+      "                        Ok(_) => state = State::new(Default::default()).with_smap(other.smap_ref().clone()),",
+      {"C02": "subsumes"}),
+    M("c04-implied-default-true", ["C04", "C02", "C19"], "src/state/constraint/store.rs",
+      ".map_or(false, |tree_storec| tree_storec.subsumes(tree_newc))",
+      ".map_or(true, |tree_storec| tree_storec.subsumes(tree_newc))",
+      {"C04": "new-left-out", "C02": "new-left-out", "C19": "new-left-out"}),
+    M("c03-operands-lists-key-twice", ["C03", "C23"], "src/state/substitution.rs",
+      "            operands.push(k.clone());\n            if v.is_var() {\n                operands.push(v.clone());",
+      "            operands.push(k.clone());\n            if v.is_var() {\n                operands.push(k.clone());",
+      {"C03": "operands-complete", "C23": "operands-complete"}),
+    M("c03-plusfd-operands-u-twice", ["C03", "C23"], "src/relation/clpfd/plusfd.rs",
+      "        vec![self.u.clone(), self.v.clone(), self.w.clone()]",
+      "        vec![self.u.clone(), self.u.clone(), self.w.clone()]",
+      {"C03": "PlusFdConstraint|lists", "C23": "PlusFdConstraint|lists"}),
+    M("c05-or-pattern-alternatives-reversed", ["C05", "C13", "C14"], "macros/src/lib.rs",
+      "            let pattern: Pattern = input.parse()?;\n            patterns.push(pattern);",
+      "            let pattern: Pattern = input.parse()?;\n            patterns.insert(0, pattern);",
+      {"C05": "front-end-only-appends", "C13": "front-end-only-appends", "C14": "front-end-only-appends"}),
+    M("c08-conj-from-vec-swapped", ["C08", "C14", "C06"], "src/operator/conj.rs",
+      "        let mut p = Goal::succeed();\n        for g in v.drain(..).rev() {\n            p = Conj::new(g, p);",
+      "        let mut p = Goal::succeed();\n        for g in v.drain(..).rev() {\n            p = Conj::new(p, g);",
+      {"C08": "builders", "C14": "builders", "C06": "builders"}),
+    M("c10-dfsdisj-from-conjunctions-seed", ["C10", "C05", "C06"], "src/operator/disj.rs",
+      "    pub fn from_conjunctions(conjunctions: &[&[DFSGoal<U, E>]]) -> DFSGoal<U, E> {\n        let mut p = DFSGoal::fail();",
+      "    pub fn from_conjunctions(conjunctions: &[&[DFSGoal<U, E>]]) -> DFSGoal<U, E> {\n        let mut p = DFSGoal::succeed();",
+      {"C10": "unit=fail", "C05": "", "C06": "unit=fail"}),
+    M("c07-matche-depth-first", ["C07", "C05", "C06"], "src/operator/matche.rs",
+      "pub fn matche<U, E>(param: PatternMatchOperatorParam<U, E, Goal<U, E>>) -> Goal<U, E>",
+      "pub fn matche<U, E>(param: PatternMatchOperatorParam<U, E, crate::goal::DFSGoal<U, E>>) -> crate::goal::DFSGoal<U, E>",
+      {"C07": "operator-search-kind", "C05": "operator-search-kind", "C06": "operator-search-kind"}),
+    M("c07-conde-from-array-one-conjunction", ["C07", "C06"], "src/operator/conde.rs",
+      "        InferredGoal::new(G::dynamic(Rc::new(Conde {\n            conjunctions: goals.to_vec(),\n            _phantom: PhantomData,\n            _phantom2: PhantomData,\n        })))",
+      "        Conde::from_conjunctions(&[goals])",
+      {"C07": "one-branch-per-goal", "C06": "one-branch-per-goal"}),
+    M("c04-timesfd-quotient-bound", ["C04", "C17"], "src/relation/clpfd/timesfd.rs",
+      "                        wmax.checked_div(umin).unwrap_or(vmax),",
+      "                        wmax.checked_div(umax).unwrap_or(vmax),",
+      {"C04": "sound-bounds", "C17": "sound-bounds"}),
+    M("c11-pair-walk-star-first-twice", ["C11", "C20"], "src/compound.rs",
+      "(smap.walk_star(&self.0), smap.walk_star(&self.1))",
+      "(smap.walk_star(&self.0), smap.walk_star(&self.0))",
+      {"C11": "library-impls", "C20": "library-impls"}),
+    M("c12-iter-stops-at-nil-element", ["C12", "C21"], "src/lterm.rs",
+      "            Some(LTermInner::Cons(head, tail)) => {\n                if tail.is_empty() {\n                    // The iterator has finished the list after this one",
+      "            Some(LTermInner::Cons(head, tail)) => {\n                if head.is_empty() {\n                    // The iterator has finished the list after this one",
+      {"C12": "sibling-iterators", "C21": "sibling-iterators"}),
+    M("c06-false-clause-succeeds", ["C06", "C14"], "macros/src/lib.rs",
+      "quote! { &[ ::proto_vulcan::GoalCast::cast_into(::proto_vulcan::relation::fail()) ] }",
+      "quote! { &[ ::proto_vulcan::GoalCast::cast_into(::proto_vulcan::relation::succeed()) ] }",
+      {"C06": "clause-table", "C14": "clause-table"}),
+    # behaviour-preserving counterparts
+    M("silent-implied-as-is-some-and", ["C02", "C04", "C19"], "src/state/constraint/store.rs",
+      ".map_or(false, |tree_storec| tree_storec.subsumes(tree_newc))",
+      ".is_some_and(|tree_storec| tree_storec.subsumes(tree_newc))",
+      silent=True),
+    M("silent-operands-renamed", ["C03", "C23"], "src/state/substitution.rs",
+      "        let mut operands = vec![];\n        for (k, v) in self.0.iter() {\n            operands.push(k.clone());\n            if v.is_var() {\n                operands.push(v.clone());\n            }\n        }\n        operands",
+      "        let mut out = Vec::new();\n        for (key, value) in self.0.iter() {\n            out.push(key.clone());\n            if value.is_var() {\n                out.push(value.clone());\n            }\n        }\n        out",
+      silent=True),
+    M("silent-conde-from-array-collect", ["C07", "C06", "C13"], "src/operator/conde.rs",
+      "            conjunctions: goals.to_vec(),",
+      "            conjunctions: goals.iter().cloned().collect(),",
+      silent=True),
+    # reverse of fix commits F17 / F18
+    M("c18-copy-before-saturating", ["C18"], "src/state/fd.rs",
+      "                Some(u) => match u.checked_sub(1) {\n                    Some(last) if *r.start() <= last => {\n                        Some(FiniteDomain::Interval(*r.start()..=last))\n                    }\n                    _ => None,\n                },",
+      "                Some(u) => {\n                    let r = *r.start()..=u.saturating_sub(1);\n                    if r.is_empty() {\n                        None\n                    } else {\n                        Some(FiniteDomain::Interval(r))\n                    }\n                }",
+      {"C18": "saturating_sub"}),
+    M("c20-option-term-wrapped-opaque", ["C20", "C11", "C21"], "src/compound.rs",
+      "            Some(x) => match x.as_term() {\n                // A term is its own upcast. Wrapped as an opaque object it would have no\n                // children, and `Some(1)` would unify with `Some(2)`.\n                Some(term) => term.clone(),\n                None => LTerm::from(Rc::new(x) as Rc<dyn CompoundObject<U, E>>),\n            },",
+      "            Some(x) => LTerm::from(Rc::new(x) as Rc<dyn CompoundObject<U, E>>),",
+      {"C20": "term-payload-is-not-wrapped", "C11": "term-payload-is-not-wrapped", "C21": "term-payload-is-not-wrapped"}),
+    M("c18-merge-cursor-steps-backwards", ["C18", "C09"], "src/state/fd.rs",
+      "                        (Some(s), Some(o)) if s > o => maybe_o = oiter.next(),\n                        (Some(s), Some(o)) if s == o => {\n                            maybe_o = oiter.next();\n                            maybe_s = siter.next();\n                            intersection.push(s);",
+      "                        (Some(s), Some(o)) if s > o => maybe_o = oiter.next_back(),\n                        (Some(s), Some(o)) if s == o => {\n                            maybe_o = oiter.next();\n                            maybe_s = siter.next();\n                            intersection.push(s);",
+      {"C18": "cursor-steps-forward", "C09": "cursor-steps-forward"}),
 ]
